@@ -9,4 +9,5 @@ INVARIANT InitSnap
 INVARIANT FirstAtZero
 INVARIANT CursorMonotone
 INVARIANT TotalIsEnd
+INVARIANT SlotRestIsGap
 CHECK_DEADLOCK FALSE
